@@ -311,7 +311,7 @@ def extract_inputs(trace_path):
     """plain-text cbmc --trace: collect assignments to vp_trace_in made inside vp_in64, in order"""
     vals, fn = [], None
     rx_state = re.compile(r"^State \d+ .*?function (\S+)")
-    rx_val = re.compile(r"^\s+vp_trace_in=(\d+)")
+    rx_val = re.compile(r"^\s+vp_trace_in=(.*)$")
     with open(trace_path, "r", errors="replace") as f:
         for line in f:
             m = rx_state.match(line)
@@ -320,7 +320,15 @@ def extract_inputs(trace_path):
                 continue
             m = rx_val.match(line)
             if m and fn == "vp_in64":
-                vals.append(int(m.group(1)))
+                txt = m.group(1)
+                # the bit pattern in parentheses first: the value itself is pretty-printed and may read
+                # `sizeof(struct s) /*24ul*/` for a plain 24
+                b = re.search(r"\(([01 ]{8,})\)\s*$", txt)
+                if b:
+                    vals.append(int(b.group(1).replace(" ", ""), 2))
+                    continue
+                d = re.search(r"/\*\s*(\d+)", txt) or re.match(r"\s*(\d+)", txt)
+                vals.append(int(d.group(1)) if d else 0)
     return vals
 
 
@@ -341,13 +349,15 @@ def extract_inputs_json(trace_path, prop):
             for st in r.get("trace", []):
                 if st.get("stepType") == "assignment" and st.get("lhs") == "vp_trace_in" and (st.get("sourceLocation") or {}).get("function") == "vp_in64":
                     v = st.get("value") or {}
+                    # the bit pattern first: "data" is pretty-printed and may read `sizeof(struct s) /*24ul*/` for a plain 24
                     try:
-                        vals.append(int(v.get("data")))
+                        vals.append(int(v.get("binary"), 2))
                     except (TypeError, ValueError):
-                        try:
-                            vals.append(int(v.get("binary"), 2))
-                        except (TypeError, ValueError):
-                            pass
+                        m = re.search(r"/\*\s*(\d+)", str(v.get("data"))) or re.match(r"\s*(\d+)", str(v.get("data")))
+                        if m:
+                            vals.append(int(m.group(1)))
+                        else:
+                            vals.append(0)      # keep the draw order aligned; the replay decides
     return vals
 
 
@@ -625,7 +635,7 @@ def main():
         return 0
     pid = args[0]
     tier = os.environ.get("VERIF_TIER", "quick")
-    only, jobs, keep = None, int(os.environ.get("VERIF_JOBS", "8")), False
+    only, jobs, keep = None, int(os.environ.get("VERIF_JOBS", "12")), False
     i = 1
     while i < len(args):
         a = args[i]
